@@ -85,6 +85,8 @@ def traj_record(T, raw: bool = False) -> dict:
         'time_step': T.time_step,
         'metadata': repr(sorted((str(k), repr(v)) for k, v in (T.metadata or {}).items())),
         'site_properties': _site_props(T),
+        'frame_properties': repr(getattr(T, 'frame_properties', None)),
+        'charge': repr((getattr(T, 'charge', None), getattr(T, 'spin_multiplicity', None))),
     }
     if raw:
         rec['mode'] = bool(T.coords_are_displacement)
